@@ -364,7 +364,9 @@ def main():
         "violations": len(violations),
     }
     if not replay:
-        with open(os.path.join(VERIF, "evidence", pid + ".json"), "w") as f:
+        # runs against a scratch copy of the repository (mutant runs) do not overwrite the evidence of the real tree
+        evname = pid + ".json" if os.path.realpath(REPO) == "/repo" else f".alt-{pid}.json"
+        with open(os.path.join(VERIF, "evidence", evname), "w") as f:
             json.dump(ev, f, indent=1)
 
     for line in known_lines:
